@@ -88,9 +88,13 @@ func runStale(c StaleCase) (res evid.Result, err error) {
 					<-release // only the sealing of this fraction; later ones pass
 				}
 			})
-			before := st.FM.Active().Info().Name()
 			go func() { defer close(sealed); st.FM.SealForcedForTests() }()
-			for i := 0; st.FM.Active().Info().Name() == before && i < 5000; i++ {
+			// go on only when THIS sealing is the one held at the hook (it has rotated by then):
+			// on a busy machine a later, synchronous sealing could otherwise be the first to arrive
+			for i := 0; !held.Load(); i++ {
+				if i > 150_000 {
+					return res, fmt.Errorf("harness: the background sealing did not reach its first hook point within 30 s")
+				}
 				time.Sleep(200 * time.Microsecond)
 			}
 		case p < len(c.Parts)-1 || !c.Active:
